@@ -188,18 +188,138 @@ theorem C01_sys_rolling_rolls_iff_exceeds (spec : RollSpec) (am : Bool) (pre : L
   rw [hc] at this
   simpa [encBytes, L] using this
 
-/-- THE FULL STATEMENT of the bound (C06 "S4") inside the system, NOT PROVED here: after every
-delivery the log file of a rolling appender has just been rotated away or holds at most `limit`
-bytes. Missing: (1) that the contract rollers never return `Err` without an injected fault (so that
-every append of the stream returns `Ok`, the hypothesis of `C06_bounded_after_append`), (2) the
-bridge from `rollFinal` to `Spec06.final6`. The correspondence check evaluates it on every snapshot
-(`specRollingOk`). -/
+/-- THE FULL STATEMENT of the bound (C06 "S4") inside the system: after every delivery the log file
+of a rolling appender has just been rotated away or holds at most `limit` bytes. Proved for the
+delete roller and every plain fixed-window roller (`C01_sys_rolling_bounded_partial`, below); open
+for compressed fixed-window patterns (`.gz` / `.zst`), where "the roller never returns `Err` without
+an injected fault" needs more than `RollContractE`. The correspondence check evaluates the bound on
+every snapshot (`specRollingOk`). -/
 def C01_sys_rolling_bounded_statement : Prop :=
   ∀ (spec : RollSpec) (am : Bool) (arch : Disk → List Bytes), RollContractE spec.roller.fn spec.active arch →
     ∀ (pre : List Bytes) (x : Bytes),
       let c := spec.cfg am
       let d := (rollFinal c (init c spec.dir () 0) (streamOps (pre ++ [x]))).disk
       d.get? spec.active = none ∨ ∃ b, d.get? spec.active = some b ∧ b.length ≤ spec.limit
+
+/-! ### the bound (C06 "S4") inside the system -/
+
+/-- a roller that cannot fail without an injected fault while the log file exists -/
+def NoErr (roll : RollFn) (path : Path) : Prop :=
+  ∀ d a, d.get? path = some a → ∃ x, (roll path (faultFn none) d).1 = .ok x
+
+theorem faultFn_none (k : Nat) : faultFn none k = false := by simp [faultFn]
+
+/-- (i) the delete roller: `remove_file` of an existing file, no injected fault -/
+theorem C01_sys_rolling_delete_never_errs (path : Path) : NoErr RollerKind.delete.fn path := by
+  intro d a hg
+  simp [RollerKind.fn, deleteRoll, faultFn_none, hg]
+
+theorem runSteps_plain_ok (r : RollerCfg) (hc : r.comp = .none) (file : Path) (steps : List Roller.Step) :
+    ∀ (k : Nat) (d : Disk), ∃ x, (runSteps r file (faultFn none) k steps d).1 = .ok x := by
+  induction steps with
+  | nil => intro k d; exact ⟨d, rfl⟩
+  | cons st rest ih =>
+    intro k d
+    cases st with
+    | shift i => simp only [runSteps, faultFn_none, applyStep]; exact ih _ _
+    | final => simp only [runSteps, faultFn_none, applyStep, finalStep, hc]; exact ih _ _
+
+/-- (i) the fixed-window roller with a plain (uncompressed) pattern: every step of the rotation is a
+rename that tolerates a missing source, so without an injected fault it cannot fail (any base, any
+count, `count = 0` included: then it is `remove_file` of the existing log file) -/
+theorem C01_sys_rolling_plain_window_never_errs (p : List Char) (hplain : compressionOf p = .none)
+    (base count : Nat) (path : Path) : NoErr (RollerKind.fixedWindow p base count).fn path := by
+  intro d a hg
+  simp only [RollerKind.fn, fixedWindowRoll]
+  by_cases hc : (mkRoller id id p base count).count = 0
+  · simp [hc, faultFn_none, hg]
+  · simp only [hc, if_false]
+    exact runSteps_plain_ok (mkRoller id id p base count) (show compressionOf p = .none from hplain) path _ 0 d
+
+theorem rollFinal_append (c : Cfg Unit) (ops1 ops2 : List XOp) :
+    ∀ (s : St Unit), rollFinal c s (ops1 ++ ops2) = rollFinal c (rollFinal c s ops1) ops2 := by
+  induction ops1 with
+  | nil => intro s; rfl
+  | cons op ops ih => intro s; simp [rollFinal, ih]
+
+/-- THE BOUND, for every roller that honours `Roll::roll`'s contract (`RollContractE`) and cannot
+fail without an injected fault (`NoErr`): after EVERY delivery to a rolling appender — whatever the
+directory held before, whatever was delivered before, both open modes, any limit including 0 — the
+log file has just been rotated away or holds at most `limit` bytes. -/
+theorem C01_sys_rolling_bounded_of_noErr (spec : RollSpec) (am : Bool) (arch : Disk → List Bytes)
+    (hc : RollContractE spec.roller.fn spec.active arch) (hne : NoErr spec.roller.fn spec.active)
+    (pre : List Bytes) (x : Bytes) :
+    let c := spec.cfg am
+    let d := (rollFinal c (init c spec.dir () 0) (streamOps (pre ++ [x]))).disk
+    d.get? spec.active = none ∨ ∃ b, d.get? spec.active = some b ∧ b.length ≤ spec.limit := by
+  intro c d
+  let s := rollFinal c (init c spec.dir () 0) (streamOps pre)
+  have hwf : WF c s := WF_rollFinal c _ _ (WF_init c spec.dir () 0)
+  have hd : d = (append c s [x] (faultFn none)).2.disk := by
+    simp only [d, streamOps, List.map_append, rollFinal_append, List.map_cons, List.map_nil, rollFinal, applyX, applyOp]
+    rfl
+  obtain ⟨_, _, _, _, hno, _, hyes⟩ :=
+    append_post_spec c s [x] (faultFn none) hwf rfl _ _ (append c s [x] (faultFn none)).1
+      (append c s [x] (faultFn none)).2 rfl rfl rfl
+  rw [hd]
+  by_cases hgt : (openView c s ++ encBytes [x]).length > spec.limit
+  · have hans : (c.trig.fire s.tst (openView c s ++ encBytes [x]).length s.now).1 = .yes := by
+      show ((sizeCfg spec.active am spec.limit spec.roller.fn).trig.fire _ _ _).1 = _
+      rw [sizeCfg_fire, if_pos hgt]
+    obtain ⟨d1, hg1, _, _, hdisk, _⟩ := hyes hans
+    left
+    rw [hdisk]
+    obtain ⟨y, hy⟩ := hne d1 _ hg1
+    have hroll : spec.roller.fn spec.active (faultFn none) d1 =
+        (.ok y, (spec.roller.fn spec.active (faultFn none) d1).2) := by
+      rw [← hy]
+    exact (hc.ok (faultFn none) d1 y _ _ hroll hg1).1
+  · have hans : (c.trig.fire s.tst (openView c s ++ encBytes [x]).length s.now).1 = .no := by
+      show ((sizeCfg spec.active am spec.limit spec.roller.fn).trig.fire _ _ _).1 = _
+      rw [sizeCfg_fire, if_neg hgt]
+    obtain ⟨_, _, ⟨w, _, _, hg, _⟩, _⟩ := hno hans
+    right
+    exact ⟨_, hg, Nat.le_of_not_gt hgt⟩
+
+/-- a roller of the system that is the delete roller or a fixed-window roller with a plain pattern -/
+def PlainRoller : RollerKind → Prop
+  | .delete => True
+  | .fixedWindow p _ _ => compressionOf p = .none
+
+/-- `C01_sys_rolling_bounded_statement` for the rollers the system slice builds and the harness
+exercises: the delete roller and the fixed-window roller with a plain pattern (any base and count).
+Still open in the full statement: fixed-window patterns ending in `.gz` / `.zst` (there the final
+step opens the log file and can fail when a slot name coincides with it; `RollContractE` alone does
+not exclude that in this proof). -/
+theorem C01_sys_rolling_bounded_partial (spec : RollSpec) (am : Bool) (arch : Disk → List Bytes)
+    (hc : RollContractE spec.roller.fn spec.active arch) (hplain : PlainRoller spec.roller)
+    (pre : List Bytes) (x : Bytes) :
+    let c := spec.cfg am
+    let d := (rollFinal c (init c spec.dir () 0) (streamOps (pre ++ [x]))).disk
+    d.get? spec.active = none ∨ ∃ b, d.get? spec.active = some b ∧ b.length ≤ spec.limit := by
+  apply C01_sys_rolling_bounded_of_noErr spec am arch hc
+  cases hk : spec.roller with
+  | delete => exact C01_sys_rolling_delete_never_errs _
+  | fixedWindow p base count =>
+    rw [hk] at hplain
+    exact C01_sys_rolling_plain_window_never_errs p hplain base count _
+
+/-- … inside the system: after a history whose delivered stream to the rolling appender `a` is not
+empty, the log file in `a`'s directory is gone or within the limit -/
+theorem C01_sys_rolling_bounded_in_system (cfg : SysConfig) (asts : Name → List Pat) (h : SysWFR cfg asts)
+    (rs : List SysRecord) (hd : ∀ r ∈ rs, DatesOkR cfg asts r)
+    (a : Name) (ha : a ∈ cfg.routing.appenders) (spec : RollSpec) (hr : (cfg.app a).rolling = some spec)
+    (arch : Disk → List Bytes) (hc : RollContractE spec.roller.fn spec.active arch)
+    (hplain : PlainRoller spec.roller) (hne : deliveredStream cfg asts a rs ≠ []) :
+    ∃ st d, sysRun cfg rs = .ok st ∧ st.dir a = some d ∧
+      (d.get? spec.active = none ∨ ∃ b, d.get? spec.active = some b ∧ b.length ≤ spec.limit) := by
+  obtain ⟨st, hs, hdir⟩ := C01_sys_rolling_is_c05_run cfg asts h rs hd a ha spec hr arch
+  refine ⟨st, _, hs, hdir, ?_⟩
+  rw [grunX_state]
+  obtain ⟨pre, x, hsplit⟩ : ∃ pre x, deliveredStream cfg asts a rs = pre ++ [x] :=
+    ⟨_, _, (List.dropLast_concat_getLast hne).symm⟩
+  rw [hsplit]
+  exact C01_sys_rolling_bounded_partial spec _ arch hc hplain pre x
 
 /-! ### non-vacuity (tests on samples, not proofs of the property)
 
